@@ -33,6 +33,10 @@ def pumped(n):
     out.append(("pump-unterminated-trailer", fg.msg(method=b"POST", headers=[H, (b"Transfer-Encoding", b"chunked")], raw_body=b"0\r\nX-T: " + b"v" * n)))
     out.append(("pump-unterminated-head", b"GET /a HTTP/1.1\r\nX-H: " + b"v" * n))
     out.append(("pump-empty-lines", b"\r\n" * min(n, 400) + fg.msg(headers=[H])))
+    # optional white space around an empty field value, valid and followed by a control byte (regex backtracking)
+    out.append(("pump-ows-empty-value", fg.msg(headers=[H]).replace(b"Host: h\r\n", b"Host: h\r\nX-E:" + b" " * n + b"\r\n")))
+    out.append(("pump-ows-then-ctl", fg.msg(headers=[H]).replace(b"Host: h\r\n", b"Host: h\r\nX-E:" + b" " * n + b"\x01\r\n")))
+    out.append(("pump-ows-tabs-then-ctl", fg.msg(headers=[H]).replace(b"Host: h\r\n", b"Host: h\r\nX-E: v" + b" \t" * (n // 2) + b"\x7f\r\n")))
     return out
 
 
